@@ -3,6 +3,7 @@ import BoboVerif.Model.Decider
 import BoboVerif.Lemmas.Run
 import BoboVerif.Gen.PatternRules
 import BoboVerif.Lemmas.GenRun
+import BoboVerif.Lemmas.GenDecider
 /-!
 C01 — Pattern detection follows the documented block semantics.
 
@@ -288,3 +289,26 @@ theorem run_source_walk_c01 {ε : Type} (n : Nat) (e : ε) (b : Block ε) (rest 
       ["self._add_event(event, block)", "self._block_index = temp_index + 1", "self._halted = self.is_complete()"] :=
   ⟨gen_walk_eq n e b rest i r, gen_processSteps_eq, gen_moveForward_eq⟩
 end Bobo.Run
+
+/-! G-tie (C01): the local path of decider.py (`_check_against_runs`, `_check_against_patterns`) as it stands now. -/
+namespace Bobo.Decider
+/-- per run: `process` alone inside the `try`, then the classification table generated from the source; for a
+freshly started run: the decision table generated from the source; and the shapes of the two loops. -/
+theorem decider_local_fragments_c01 {ε : Type} (e : ε) (ph : String) (acc : RunsAcc ε) (r : LRun ε)
+    (haltedNew completeNew singleton noRuns : Bool) :
+    (checkRun e ph acc r =
+      match (Bobo.Run.process r.pat r.run e).1 with
+      | .ok changed =>
+        applyCls ph acc { r with run := (Bobo.Run.process r.pat r.run e).2 }
+          (Bobo.Gen.DeciderFrag.classify changed (Bobo.Run.process r.pat r.run e).2.halted
+            ((Bobo.Run.process r.pat r.run e).2.isComplete r.pat.blocks.length))
+      | _ => { acc with keep := acc.keep ++ [{ r with run := (Bobo.Run.process r.pat r.run e).2 }] }) ∧
+    Bobo.Gen.DeciderFrag.startDecision haltedNew completeNew singleton noRuns =
+      (if haltedNew && completeNew then .completeAtOnce else if !singleton || noRuns then .store else .skip) ∧
+    Bobo.Gen.DeciderFrag.runsShape =
+      ["per-run:try-process-only;classify", "remove-finished-after-all-runs", "return:completed,halted,updated"] ∧
+    Bobo.Gen.DeciderFrag.patternsShape =
+      ["first-block:any-predicate,raise-counts-as-no,empty-history", "new-run:index-1,history-{group0:[event]},fresh-id",
+       "return:completed,updated"] :=
+  ⟨gen_checkRun_eq e ph acc r, gen_startDecision_eq _ _ _ _, gen_runsShape_eq, gen_patternsShape_eq⟩
+end Bobo.Decider
